@@ -527,6 +527,25 @@ def p9_antecedent(check: Check, rule: str = "P9") -> None:
             "last_is_any": False, "enabled": True, "has_variable": True, "has_hedges": False, "has_term": True,
             "has_left": True, "has_right": True, "has_conj": True, "has_disj": True, "is_and": False, "is_or": False}
 
+    pnames = params[1:]
+
+    def norm(t):
+        """Bind the arguments of recursive self.activation_degree(...) calls to positions (keywords -> positional)."""
+        if isinstance(t, tuple) and t and isinstance(t[0], str):
+            t = tuple(norm(x) for x in t)
+            if t[0] == "call" and t[1] == ("attr", SELF, "activation_degree") and t[3]:
+                bound = dict(zip(pnames, t[2]))
+                for k, v in t[3]:
+                    bound[k] = v
+                if all(n_ in bound for n_ in pnames[:len(bound)]):
+                    return ("call", t[1], tuple(bound[n_] for n_ in pnames if n_ in bound), ())
+            return t
+        if isinstance(t, tuple):
+            return tuple(norm(x) for x in t)
+        if isinstance(t, frozenset):
+            return frozenset(norm(x) for x in t)
+        return t
+
     def run_case(name: str, over: dict, expect) -> None:
         ev = RoleEval(r, classify)
         env = dict(base)
@@ -538,7 +557,7 @@ def p9_antecedent(check: Check, rule: str = "P9") -> None:
             if pa[-1].kind == "raise_exit":
                 results.append(("raise", None, end))
             elif isinstance(end.ast, ast.Return) and end.ast.value is not None:
-                results.append(("return", pr.at(end.ast.value, len(pa) - 2), end))
+                results.append(("return", norm(pr.at(end.ast.value, len(pa) - 2)), end))
             else:
                 results.append(("other", None, end))
         ok, why = expect(results)
